@@ -6,10 +6,28 @@ From Coq Require Export String.
 From RM Require Export C18.Model.
 Open Scope Z_scope.
 
+(* a dedicated accessor's body is a plain read when it is one location under widening
+   casts only: no mask, no flag test, no other field *)
+Fixpoint plain_read (e : aexp) : option loc :=
+  match e with
+  | ALoc l => Some l
+  | ACast a from to => if from <=? to then plain_read a else None
+  | _ => None
+  end.
+(* a dispatch arm forwards the CpuContext call unchanged: the call under widening casts only *)
+Fixpoint plain_var (e : aexp) (x : name) : bool :=
+  match e with
+  | AVar y => name_eqb y x
+  | ACast a from to => (from <=? to) && plain_var a x
+  | _ => false
+  end.
+Definition plain_bvar (e : bexp) (x : name) : bool :=
+  match e with BVar y => name_eqb y x | _ => false end.
 Definition accepted (c : ctx_table) : list name := names_of (ct_set c).
 Definition dummy_loc : loc := mkloc [] (-2) 0 (-1).
+Definition acc_loc (e : aexp) : loc := match plain_read e with Some l => l | None => dummy_loc end.
 Definition loc_of (c : ctx_table) (n : name) : loc :=
-  match find_arm n (ct_get c) with Some l => l | None => dummy_loc end.
+  match find_arm n (ct_get c) with Some e => acc_loc e | None => dummy_loc end.
 Definition opt_str_eqb (a b : option name) : bool :=
   match a, b with
   | Some x, Some y => name_eqb x y
@@ -29,11 +47,16 @@ Definition diag (c : ctx_table) (msg : string) (p : name -> bool) (names : list 
   : list (name * string * name) :=
   map (fun n => (ct_name c, msg, n)) (filter (fun n => negb (p n)) names).
 
-(* get and set name the same, in-range location of the register width *)
+(* get reads plainly (no mask, no other field) the in-range location of the register width that set
+   assigns, and set assigns `val` itself *)
 Definition ok_tables (c : ctx_table) (n : name) : bool :=
-  match find_arm n (ct_get c), find_arm n (ct_set c) with
-  | Some a, Some b => loc_eqb a b && loc_ok a && loc_ok b && (l_width a =? ct_width c) && (l_width b =? ct_width c)
-  | _, _ => false
+  match find_arm n (ct_get c), find_arm n (ct_set c), find_arm n (ct_set_val c) with
+  | Some e, Some b, Some sv =>
+      match plain_read e with
+      | Some a => loc_eqb a b && loc_ok a && loc_ok b && (l_width a =? ct_width c) && (l_width b =? ct_width c)
+      | None => false
+      end && plain_var sv v_val
+  | _, _, _ => false
   end.
 (* same canonical name <-> same location, against every other accepted name *)
 Definition ok_alias (c : ctx_table) (n : name) : bool :=
@@ -43,29 +66,11 @@ Definition ok_alias (c : ctx_table) (n : name) : bool :=
 Definition ok_valid (c : ctx_table) (n : name) : bool :=
   forallb (fun a => opt_str_eqb (memoize c a) (memoize c n)) (alts_of c n) &&
   forallb (fun a => implb (opt_str_eqb (memoize c a) (memoize c n)) (mem a (alts_of c n))) (accepted c).
-(* a dedicated accessor's body is a plain read when it is one location under widening
-   casts only: no mask, no flag test, no other field *)
-Fixpoint plain_read (e : aexp) : option loc :=
-  match e with
-  | ALoc l => Some l
-  | ACast a from to => if from <=? to then plain_read a else None
-  | _ => None
-  end.
-(* a dispatch arm forwards the CpuContext call unchanged: the call under widening casts only *)
-Fixpoint plain_var (e : aexp) (x : name) : bool :=
-  match e with
-  | AVar y => name_eqb y x
-  | ACast a from to => (from <=? to) && plain_var a x
-  | _ => false
-  end.
-Definition plain_bvar (e : bexp) (x : name) : bool :=
-  match e with BVar y => name_eqb y x | _ => false end.
-Definition acc_loc (e : aexp) : loc := match plain_read e with Some l => l | None => dummy_loc end.
 Definition ct_sp_loc (c : ctx_table) : loc := acc_loc (ct_sp_acc c).
 Definition ct_ip_loc (c : ctx_table) : loc := acc_loc (ct_ip_acc c).
 Definition ok_special (c : ctx_table) (acc : aexp) (n : name) : bool :=
   match find_arm n (ct_get c), plain_read acc with
-  | Some g, Some l => loc_eqb g l && loc_ok l
+  | Some g, Some l => loc_eqb (acc_loc g) l && loc_ok l
   | _, _ => false
   end && is_some (memoize c n).
 Definition ok_register (c : ctx_table) (r : name) : bool :=
@@ -74,7 +79,7 @@ Definition ok_register (c : ctx_table) (r : name) : bool :=
 Definition has_upper (n : name) : bool := existsb (fun b => (65 <=? b) && (b <=? 90)) n.
 
 Definition diagnose (c : ctx_table) : list (name * string * name) :=
-  diag c "get_register_always / set_register: different location, index out of range or wrong width"%string
+  diag c "get_register_always / set_register: different location, index out of range, wrong width, a read that is not the plain location, or an assignment of something else than val"%string
        (ok_tables c) (names_of (ct_get c) ++ names_of (ct_set c)) ++
   diag c "accepted by set_register / get_register_always but rejected by memoize_register (the checked accessor reports it absent)"%string
        (fun n => is_some (memoize c n)) (accepted c) ++
